@@ -47,6 +47,8 @@ static void gfdef_run(Ctx& c) {
     // container route
     Pomerol::GFContainer cont(*p.IC, *p.S, *p.H, *p.DM, *p.Ops);
     cont.prepareAll(); cont.computeAll();
+    const bool recompute = (c.k % 2 == 0);      // repeated compute()/computeAll() must be idempotent (the objects guard on their status)
+    if (recompute) cont.computeAll();
 
     bool use_expm = (N <= (c.thorough() ? 5 : 4));
     long ndropped = 0, nonzero_offdiag = 0; double dropped_mass = 0;
@@ -57,6 +59,8 @@ static void gfdef_run(Ctx& c) {
         Pomerol::AnnihilationOperator C(*p.IC, *p.S, *p.H, (Pomerol::ParticleIndex)i); C.prepare(); C.compute();
         Pomerol::CreationOperator CX(*p.IC, *p.S, *p.H, (Pomerol::ParticleIndex)j); CX.prepare(); CX.compute();
         Pomerol::GreensFunction GF(*p.S, *p.H, C, CX, *p.DM); GF.prepare(); GF.compute();
+        if (recompute) { GF.compute(); GF.prepare(); GF.compute(); C.compute(); CX.compute(); }
+        Pomerol::GreensFunction GFcopy(GF);       // copy of a computed object evaluates like the original
         Pomerol::GreensFunction& GC = cont((Pomerol::ParticleIndex)i, (Pomerol::ParticleIndex)j);
         TolG tol; tol.prepare(lehmann_terms(cL[(size_t)i], cdL[(size_t)j], lb.E, wlib));
         ndropped += (long)tol.Rsmall.size(); dropped_mass += tol.dropped_sum();
@@ -80,11 +84,12 @@ static void gfdef_run(Ctx& c) {
             c.cmp("container-vs-definition", "C01:container-vs-definition:" + kind + ":" + pk, lc, ref, t, det);
             c.cmp("container-vs-standalone", "C01:container-vs-standalone:" + kind, lc, ls, 2 * t, det);
             c.cmp("long-vs-complex-overload", "C01:long-vs-complex-overload", lz, ls, 1e-13 * (1 + std::abs(ls)), det);
+            c.cmp("copy-vs-original", "C01:copy-vs-original", GFcopy(n), ls, 1e-14 * (1 + std::abs(ls)), det);
         }
         if (i != j && any_nonzero) ++nonzero_offdiag;
     }
     c.count("index_pairs", (long)pairs.size()); c.count("dropped_residues", ndropped); c.count("nonzero_offdiag_components", nonzero_offdiag);
-    c.features.set("dropped_residues", ndropped).set("dropped_mass", dropped_mass).set("nonzero_offdiag", nonzero_offdiag);
+    c.features.set("recompute", recompute).set("dropped_residues", ndropped).set("dropped_mass", dropped_mass).set("nonzero_offdiag", nonzero_offdiag);
     bool offdiag = false; for (long a = 0; a < p.dim && !offdiag; ++a) for (long b = 0; b < a; ++b) if (std::abs(Href(a, b)) > 0) { offdiag = true; break; }
     c.nontrivial = offdiag && p.dim >= 4;
 }
